@@ -288,6 +288,24 @@ def _node(w, op_type, ins, num_outputs, outs, cont, name, attr_graph):
     return run
 
 
+@op("node_it")
+def _node_it(w, op_type, ins, num_outputs, outs, cont, name, attr_graph):
+    """The same constructor call with one-shot iterables where the signature says Iterable/Sequence:
+    a generator of inputs, an iterator of attributes, a tuple of outputs."""
+    inputs = [w.V(i) for i in ins]
+    outputs = None if outs is None else tuple(w.V(i) for i in outs)
+    c = w.C(cont) if cont is not None else None
+    attrs = []
+    if attr_graph is not None:
+        attrs.append(ir.AttrGraph("body", w.G(attr_graph)))
+
+    def run():
+        n = ir.Node("", op_type, (v for v in inputs), iter(attrs), num_outputs=num_outputs, outputs=outputs, graph=c, name=name)
+        w.add_node(n)
+        return w.label(n)
+    return run
+
+
 @op("graph")
 def _graph(w, ins, outs, nodes, inits, name):
     a, b, c, d = w.Vs(ins), w.Vs(outs), w.Ns(nodes), w.Vs(inits)
@@ -741,6 +759,6 @@ def _g_mp(w, g, k, s):
     return run
 
 
-CONSTRUCTORS = {"val", "node", "graph", "func"}
+CONSTRUCTORS = {"val", "node", "node_it", "graph", "func"}
 PAYLOAD = {"v_const", "v_type", "v_dtype", "v_shape", "v_doc", "v_mp", "v_meta", "n_doc", "n_mp", "n_op",
            "g_name", "g_mp", "attr_set", "attr_del", "n_name"}
